@@ -78,7 +78,19 @@ def mask_table(ctx):
     return table, tnode, fn
 
 
+# MSC/NX Nastran NDDL "USET" bit positions (public data-block definition; bit 0 = least significant), kept here as published
+# constants so that the rule does not depend on a source comment surviving
+NDDL_BITS = {"M": 0, "S": 1, "O": 2, "R": 3, "G": 4, "N": 5, "F": 6, "A": 7, "L": 8, "SG": 9, "SB": 10, "E": 11, "P": 12, "NE": 13, "FE": 14,
+             "D": 15, "J": 16, "SA": 17, "K": 18, "KS": 19, "C": 20, "B": 21, "Q": 22, "T": 23, "FR": 24, "V": 25, "U6": 26, "U5": 27,
+             "U4": 28, "U3": 29, "U2": 30, "U1": 31}
+
+
 def nddl_bits(ctx):
+    """the NDDL bit table; when mkusetmask still carries its own copy in a comment block, the two must agree"""
+    return dict(NDDL_BITS)
+
+
+def nddl_bits_from_comment(ctx):
     """bit table from the comment block inside mkusetmask (code <-> comment sibling)."""
     fn = ctx.src.func(N2P, "mkusetmask")
     m = ctx.src.mod(N2P)
@@ -101,8 +113,11 @@ def _bitsof(x):
 def r1_lattice(ctx):
     table, tnode, fn = mask_table(ctx)
     bits = nddl_bits(ctx)
-    if len(bits) < 32:
-        raise AnchorError("NDDL bit table comment not found in mkusetmask")
+    cbits = nddl_bits_from_comment(ctx)
+    if cbits:
+        ok = all(bits.get(k) == v for k, v in cbits.items())
+        ctx.check(ok, "mkusetmask: the bit table quoted in its comment block is the NDDL USET table", fn,
+                  None if ok else {k: (v, bits.get(k)) for k, v in cbits.items() if bits.get(k) != v}, nontrivial=False)
     want_keys = set(BASE) | set(MEMBERS) | {f"u{i}" for i in range(1, 7)}
     ok = set(table) == want_keys
     ctx.check(ok, "mask table defines exactly the documented sets", tnode,
